@@ -149,11 +149,12 @@ def check(prop, tier, seed, out):
     # TSan on real threads
     tl = poolgen.gen(tier, seed + 7, count=(48 if tier == "quick" else 1500))
     tl = [l + " fplog=0" for l in tl]
-    tagg, _ = run_native_watched(prop, tl, out, flavour="tsan", env_extra=sanit.TSAN_ENV, engine="tsan")
+    # the sanitizer runtimes keep a helper thread in timed waits, so quiescence is never reached there: short watchdog
+    tagg, _ = run_native_watched(prop, tl, out, flavour="tsan", env_extra=sanit.TSAN_ENV, engine="tsan", timeout=90 if tier == "quick" else 600)
     out.extra["tsan"] = tagg
     if prop == "C06":
         al = poolgen.gen(tier, seed + 9, count=(48 if tier == "quick" else 1500))
-        aagg, _ = run_native_watched(prop, al, out, flavour="asan", env_extra=sanit.ASAN_ENV_NOLEAK, engine="asan")
+        aagg, _ = run_native_watched(prop, al, out, flavour="asan", env_extra=sanit.ASAN_ENV_NOLEAK, engine="asan", timeout=90 if tier == "quick" else 600)
         out.extra["asan"] = aagg
     miri_histories(prop, tier, seed, out)
     attribute_miri(prop, out)
